@@ -831,6 +831,16 @@ Proof.
   cbn [qinit q_counted count] in H. lia.
 Qed.
 
+(** Corollary: an address whose own calls so far are at most the current maximum is never limited. *)
+Lemma isolation_own_traffic_ops_model checked cfg t0 ops1 b t ops2 :
+  fits (length (ops1 ++ Reg b t :: ops2)) ->
+  calls_of b (regs (ops1 ++ [Reg b t])) <= max_requests (config_after cfg ops1) ->
+  nth_error (decisions_ops checked cfg t0 (ops1 ++ Reg b t :: ops2)) (length (regs ops1)) = Some (Ok Passed).
+Proof.
+  intros Hf Hc. apply (isolation_ops_model checked cfg t0 ops1 b t ops2 Hf).
+  eapply N.le_trans; [apply counted_ops_le_calls|exact Hc].
+Qed.
+
 Lemma regs_app o1 o2 : regs (o1 ++ o2) = regs o1 ++ regs o2.
 Proof.
   induction o1 as [|o r IH]; [reflexivity|].
